@@ -72,6 +72,19 @@ def observe(ops: List[Dict[str, Any]], doc_t: Dict[str, Any], entry: str) -> Dic
     try:
         if entry == "apply":
             out = jsonpath.patch.apply(copy.deepcopy(ops), doc)
+        elif entry == "json-text-patched-twice":
+            # the document given as JSON text: patched, the result edited by the caller, the same text patched again
+            text_doc = json.dumps(untag(doc_t))
+            patch = JSONPatch(copy.deepcopy(ops))
+            try:
+                first = patch.apply(text_doc)
+                if isinstance(first, list):
+                    first.append("edited-by-caller")
+                elif isinstance(first, dict):
+                    first["edited-by-caller"] = True
+            except Exception:  # noqa: BLE001
+                pass
+            out = patch.apply(text_doc)
         elif entry == "JSONPatch-applied-twice":
             # one patch object, two documents: the second application must not see anything of the first
             patch = JSONPatch(copy.deepcopy(ops))
@@ -114,7 +127,7 @@ def replay(rec: Dict[str, Any]) -> List[Tuple[str, Dict[str, Any], str]]:
     ops = [op_dict(h) for h in hist]
     for k in range(1, len(hist) + 1):
         exp = hist[k - 1]["after"]
-        for entry in ("apply", "JSONPatch", "JSONPatch-applied-twice"):
+        for entry in ("apply", "JSONPatch", "JSONPatch-applied-twice", "json-text-patched-twice"):
             obs = observe(ops[:k], rec["doc0"], entry)
             disc = judge(exp, obs)
             if disc:
